@@ -353,27 +353,34 @@ def rule_c(ctx, gate):
     # exemption branch: the gate is entered only if ack_eliciting && !close && loss_probes == 0
     # find the branches that dominate the gate, and classify them
     exempt = {'ack_eliciting': False, 'close': False, 'loss_probes': False}
+    # decision edges: the edge of an exemption test that leaves towards "not congestion controlled" (ack_eliciting false /
+    # close true / loss_probes != 0) and the pass edge of the gate comparison. The operands are pure locals / field reads,
+    # so the order in which the short-circuit chain tests them is immaterial: each test is classified on its own.
+    decision_edges = {(g.bb, pass_t)}
     nbr = branches(F, pt, stop_named=True)
     for br in nbr:
         if not pt.dominates(br.bb, g.bb) or br.bb == g.bb:
             continue
         if head is not None and not pt.dominates(head, br.bb):
             continue
-        ds = D.render(br.desc)
-        # which edge leads to the gate?
-        for v, t in br.edges:
-            pass
-        # local named tests
-        if _is_local(br.desc, 'ack_eliciting') and edge_dominates(pt, br.bb, br.true_target(), g.bb):
-            exempt['ack_eliciting'] = True
-        if _is_local(br.desc, 'close') and edge_dominates(pt, br.bb, br.false_target(), g.bb):
-            exempt['close'] = True
+        # local named tests: (name, value of the local on the edge that leads to the gate)
+        for name, want in (('ack_eliciting', True), ('close', False)):
+            neg = _local_test(br.desc, name)
+            if neg is None:
+                continue
+            val = want != neg   # value of the switch operand on the gate-ward edge
+            to_gate, away = (br.true_target(), br.false_target()) if val else (br.false_target(), br.true_target())
+            if to_gate != away and edge_dominates(pt, br.bb, to_gate, g.bb):
+                exempt[name] = True
+                decision_edges.add((br.bb, away))
         rel = relation_on(br.desc, True)
         if rel and rel[0] in ('Eq', 'Ne') and (D.has_field(rel[1], 'loss_probes') or D.has_field(rel[2], 'loss_probes')) \
                 and (D.has_const(rel[1], 0) or D.has_const(rel[2], 0)):
             t = br.true_target() if rel[0] == 'Eq' else br.false_target()
-            if edge_dominates(pt, br.bb, t, g.bb):
+            away = br.false_target() if rel[0] == 'Eq' else br.true_target()
+            if t != away and edge_dominates(pt, br.bb, t, g.bb):
                 exempt['loss_probes'] = True
+                decision_edges.add((br.bb, away))
     for k, v in exempt.items():
         ctx.check(v, 'c', 'gate_entered_iff_' + k, pt, g.where(),
                   'gate guarded by %s test' % k, 'the congestion gate is no longer conditioned on `%s` (exemption set changed)' % k)
@@ -383,11 +390,22 @@ def rule_c(ctx, gate):
     # the allocation site is dominated by the first exemption test.
     allocs = [(i, j) for i, j, pl, rv, line in pt.assigns() if pt.local_name(pl[0]) == 'buf_capacity' and not pl[1] and rv[0] in ('bin', 'use')
               and D.has_const(d.rvalue(rv, i, j, 0), None) is False and _is_add_store(d, rv, i, j)]
-    first_tests = [br.bb for br in nbr if _is_local(br.desc, 'ack_eliciting') and pt.dominates(br.bb, g.bb)]
-    okdom = bool(allocs) and bool(first_tests) and all(any(pt.dominates(t, i) for t in first_tests) for i, j in allocs)
+    # exact form of "allocated only after the decision": no path entry -> allocation avoids every decision edge (the exemption
+    # edge of one of the three tests, or the pass edge of the gate). Whichever of the pure tests the chain evaluates first,
+    # a path that reaches the allocation has either been exempted or has passed the window comparison.
+    free = pt.reachable_from(0, avoid_edges=decision_edges)
+    okdom = bool(allocs) and not any(i in free for i, j in allocs)
     ctx.check(okdom, 'c', 'datagram_allocation_after_gate_decision', pt, pt.where(),
-              'every `buf_capacity += ..` (new datagram) is dominated by the gate/exemption decision',
+              'every `buf_capacity += ..` (new datagram) is reached only over an exemption edge or the pass edge of the gate',
               'a datagram can be allocated without passing the congestion gate decision (allocs=%s)' % allocs)
+
+
+def _local_test(desc, name):
+    """desc tests the named bool local: returns whether it is negated (`!name`), or None"""
+    d, neg = peel_not(desc)
+    if d[0] == 'local' and d[2] == name:
+        return bool(neg)
+    return None
 
 
 def _is_local(desc, name):
